@@ -28,12 +28,13 @@ ASSUMPTIONS = [
     "L, T, G are the recursively defined ghost functions stated in the module docstring (definitional axioms over the immutable input array)",
     "that decode(encode(x)) == x follows from the two chunk specifications is the composition lemma (argued in DESIGN.md, not mechanised)",
     "np.iinfo / np.zeros / np.asarray follow their NumPy meaning (library contracts)",
+    "_to_smallest_integer_type: ndarray.min() returns an element no element is below (ValueError on an empty array), an integer array compared with a Python integer gives the exact element-wise comparison (NumPy >= 2), np.all is the universal quantifier over the elements, astype between integer dtypes converts element-wise as C does (wraps) -- library contracts, not proved; input arrays hold values of their dtype and have 1 <= n < 2**31 - 1 elements",
     "decode: the packed data stems from int32 values (every partial group sum G(k) fits an int32) and src_size equals the number of groups",
     "the packed length L(n) fits a C int (< 2^31); monotonicity of L and T is the induction lemma of their recursion equations",
 ]
 UNVERIFIED = [
     "DeltaEncoding, FixedPointEncoding, IntervalQuantizationEncoding, StringArrayEncoding, ByteArrayEncoding (NumPy one-liners / string handling), _safe_cast",
-    "compress.py (_find_best_integer_compression, _to_smallest_integer_type, _get_decimal_places), bcif.py serialisation",
+    "compress.py (_find_best_integer_compression, _get_decimal_places, _compress_data driver), bcif.py serialisation",
 ]
 
 
@@ -374,3 +375,36 @@ CASES.append(Case(ENC + "::RunLengthEncoding._decode", "src_size given", setup=s
 CASES.append(Case(ENC + "::RunLengthEncoding._decode", "src_size from the run lengths", setup=setup_rle_decode("int32", "int32", False),
                   loops={0: {"invariant": [inv_rle_len]}, 1: {"invariant": [inv_rle_fill]}},
                   ensures=[("expansion", ens_rle_decode)]))
+
+
+# ---- compress.py: _to_smallest_integer_type ------------------------------------------------
+COMP = "structure/io/pdbx/compress.py"
+INT_DTYPES = ("uint8", "uint16", "uint32", "uint64", "int8", "int16", "int32", "int64")
+
+
+def setup_smallest(src):
+    def setup(I):
+        n = sym_int(I, "n", 1, 2 ** 31 - 2)
+        data = SymArr("array", src, [n], readonly=True)
+        from pyvc.core import int_range
+        lo, hi = int_range(src)
+        k = z3.Int("k!r")
+        I.ctx.assume(z3.ForAll([k], z3.Implies(z3.And(k >= 0, k < n), z3.And(z3.Select(data.arr, k) >= lo, z3.Select(data.arr, k) <= hi))))
+        g = {"n": n, "D": data.arr}
+        I.ghost["smallest"] = g
+        return {"args": [data], "ghost": g}
+    return setup
+
+
+def ens_smallest(I, env):
+    g = I.ghost["smallest"]
+    res = env.vars["result"]
+    k = I.ctx.fresh_int("k")
+    return [("same_length", natives.eq(I, res.shape[0], g["n"])),
+            ("integer_dtype", z3.BoolVal(res.ctype in INT_DTYPES)),
+            ("every_value_kept", implies(z3.And(k >= 0, k < g["n"]), z3.Select(res.arr, k) == z3.Select(g["D"], k)))]
+
+
+for _src in ("int64", "int32", "uint64", "int8"):
+    CASES.append(Case(COMP + "::_to_smallest_integer_type", f"input={_src}", setup=setup_smallest(_src), overflow=False,
+                      ensures=[("result", ens_smallest)], raises={}))
